@@ -143,7 +143,7 @@ func Run(cases []*Case, fast bool) ([]*Out, error) {
 			}
 		}
 	}
-	// Parses that hit the wall-clock guard: the first one of a package is run once more in a
+	// Parses that hit the CPU-time guard: the first one of a package is run once more in a
 	// process of its own, and only if it is guarded out again does it keep its TIMEOUT (the other
 	// unevaluated inputs of that package are then marked Skipped). Inputs skipped for other
 	// reasons (too many spinning goroutines in the driver) are run now, package by package.
@@ -165,7 +165,7 @@ func Run(cases []*Case, fast bool) ([]*Out, error) {
 				if r.Panic == "TIMEOUT" && first < 0 {
 					first = k
 				}
-				if r.Panic == "SKIPPED" {
+				if r.Panic == "SKIPPED" || r.Panic == "STALLED" {
 					pending = true
 				}
 			}
@@ -182,20 +182,20 @@ func Run(cases []*Case, fast bool) ([]*Out, error) {
 					nr.Panic = "TIMEOUT (twice, in two processes)"
 					rs[first] = nr
 					for k := range rs {
-						if rs[k].Panic == "SKIPPED" || rs[k].Panic == "TIMEOUT" {
+						if rs[k].Panic == "SKIPPED" || rs[k].Panic == "TIMEOUT" || rs[k].Panic == "STALLED" {
 							rs[k] = pgo.Result{Skipped: true}
 						}
 					}
 					break
 				}
-				rs[first] = nr // finished this time: a stall of the machine, not of the parser
+				rs[first] = nr // finished this time (or STALLED: settled by the re-run below, else skipped)
 			}
 			// run what is still unevaluated for this package in one fresh process
 			var idx []int
 			var in [][]int
 			var lim []int
 			for k, r := range rs {
-				if r.Panic == "SKIPPED" || r.Panic == "TIMEOUT" {
+				if r.Panic == "SKIPPED" || r.Panic == "TIMEOUT" || r.Panic == "STALLED" {
 					idx, in, lim = append(idx, k), append(in, j.Inputs[k]), append(lim, j.Limits[k])
 				}
 			}
@@ -213,7 +213,7 @@ func Run(cases []*Case, fast bool) ([]*Out, error) {
 			}
 		}
 		for k := range rs {
-			if rs[k].Panic == "SKIPPED" || rs[k].Panic == "TIMEOUT" {
+			if rs[k].Panic == "SKIPPED" || rs[k].Panic == "TIMEOUT" || rs[k].Panic == "STALLED" {
 				rs[k] = pgo.Result{Skipped: true} // could not be settled within three passes
 			}
 		}
